@@ -46,10 +46,10 @@ TRUSTED_BASE = [
     "behaviour inside the C codecs (liblzma, zlib, bz2, zstd, ppmd, brotli) is observed only",
 ]
 ASSUMPTIONS = [
-    "termination of the decompress loops is proved under a progress contract on the decoder chain (Cost.worker_terminates: "
-    "a call returns nothing without reading input at most k times in a row); the contract is instantiated for the Copy stage "
-    "on a stream that holds the declared bytes; for the real codecs it is an assumption, and its failure is exhibited "
-    "(worker_spins, header_loop_spins) and replayed on the implementation",
+    "termination of the two decode loops is proved for the guarded loops of Cost.v (worker_guarded, header_guarded: at most 16 "
+    "stalled rounds in a row) for every behaviour of the decoder stages; that these are the loops of the code is the "
+    "correspondence with toy stages run here (result, exception class, number of decompress calls through the fuel)",
+    "a hash-set lookup (Folder._read bound_inputs) is counted as one step",
     "time and memory of the real interpreter are measured, with thresholds: a call may use 2 s of CPU time (3 s thorough; "
     "inputs are below 64 kB), with a wall-clock backstop of 8 times that + 5 s; resident memory may grow by 300 MB per call",
 ]
@@ -827,7 +827,10 @@ def byte_mutant(b, corpus, rng):
 
 # ------------------------------------------------------------------ directed cases: one per kind that is known on the pinned tree
 def directed_cases(rng):
-    """[(name, archive, password, ops, expect(kind, via) or None)]"""
+    """[(name, archive, password, ops, expect)]: expect = (kind, via) for a trigger of a defect that is known on the
+    pinned tree, None for a case that must show no resource event at all: the benign neighbours of those triggers
+    (controls) and the triggers of the defects that have been repaired (regression cases: an ordinary exception or a
+    normal return is expected)"""
     out = []
     a = arch.make_archive([("a.txt", b"hello world" * 10)], chain="copy", encoded=False)
     packed, h = split(a)
@@ -841,49 +844,49 @@ def directed_cases(rng):
                 break
         return seal(assemble(T2), packed)
 
-    out.append(("copy: declared unpack size +50", mut("unpack.sizes.size", 160), None, ["getnames", "extractall"],
-                ("hang", "declared-size-exceeds-stream")))
+    out.append(("regression: copy: declared unpack size +50", mut("unpack.sizes.size", 160), None, ["getnames", "extractall"],
+                None))
     d = arch.make_archive([("a.txt", b"hello world" * 10)], chain="deflate", encoded=False)
     dp, dh = split(d)
     DT = tokens_of(hdr.impl_parse(dh)[1])
     for x in DT:
         if x[0] == "pack.sizes.size":
             x[2] = max(1, len(dp) // 2)
-    out.append(("deflate: packed stream cut in half, header adjusted", seal(assemble(DT), dp[:max(1, len(dp) // 2)]), None,
-                ["extractall"], ("hang", "declared-size-exceeds-stream")))
-    out.append(("valid copy archive: extractall twice without reset", a, None, ["extractall", "extractall"], ("hang", "stale-decoder")))
-    out.append(("valid copy archive: testzip after extractall without reset", a, None, ["extractall", "testzip"],
-                ("hang", "stale-decoder")))
+    out.append(("regression: deflate: packed stream cut in half, header adjusted", seal(assemble(DT), dp[:max(1, len(dp) // 2)]), None,
+                ["extractall"], None))
+    out.append(("regression: valid copy archive: extractall twice without reset", a, None, ["extractall", "extractall"], None))
+    out.append(("regression: valid copy archive: testzip after extractall without reset", a, None, ["extractall", "testzip"],
+                None))
     out.append(("valid copy archive: extract twice WITH reset", a, None, ["extract1", "reset", "extract1", "reset", "testzip"], None))
     eh = (b"\x17\x06" + num(len(packed)) + b"\x01\x09" + num(len(h)) + b"\x00" + b"\x07\x0b\x01\x00" + b"\x01\x01\x00" + b"\x0c"
           + num(len(h) + 5) + b"\x00" + b"\x00")
-    out.append(("encoded header, Copy coder, declared 5 bytes more than stored", seal(eh, packed + h), None, ["getnames"],
-                ("hang", "encoded-header-size-exceeds-stream")))
+    out.append(("regression: encoded header, Copy coder, declared 5 bytes more than stored", seal(eh, packed + h), None, ["getnames"],
+                None))
     T2 = [list(x) for x in T]
     for x in T2:
         if x[0] == "pack.sizes.size":
             x[2] = 2 ** 63
     i = [k for k, x in enumerate(T2) if x[0] == "pack.end"][0]
     T2[i:i] = [["pack.crc", "id", 10], ["pack.crc.alldefined", "byte", 1], ["pack.crc.value", "u32", 12345]]
-    out.append(("pack size 2^63 with a pack CRC: test()", seal(assemble(T2), packed), None, ["test"],
-                ("hang", "test-digest-declared-packsize")))
+    out.append(("regression: pack size 2^63 with a pack CRC: test()", seal(assemble(T2), packed), None, ["test"],
+                None))
     out.append(("40-byte archive declaring 2^32 files", seal(b"\x01\x05" + num(2 ** 32) + b"\x00\x00"), None, ["getnames"],
                 ("alloc", "numfiles")))
-    out.append(("43-byte archive declaring 2^32 pack streams and no sizes", seal(b"\x01\x04\x06\x00" + num(2 ** 32) + b"\x00\x00\x00"),
-                None, ["getnames"], ("alloc", "numstreams-without-sizes")))
+    out.append(("regression: 43-byte archive declaring 2^32 pack streams and no sizes", seal(b"\x01\x04\x06\x00" + num(2 ** 32) + b"\x00\x00\x00"),
+                None, ["getnames"], None))
     folder = b"\x01\x01\x00"
     sub = (b"\x01\x04\x06\x00\x01\x09\x00\x00" + b"\x07\x0b\x01\x00" + folder + b"\x0c\x00\x00" + b"\x08\x0d" + num(6 * 10 ** 7)
            + b"\x00" + b"\x00\x00")
     out.append(("59-byte archive declaring 6*10^7 sub-streams", seal(sub), None, ["getnames"], ("alloc", "substreams-count")))
     n = 45000
-    out.append(("%d pack sizes of one byte" % n, seal(b"\x01\x04\x06\x00" + num(n) + b"\x09" + b"\x01" * n + b"\x00\x00\x00"), None,
-                ["getnames"], ("quadratic", "packpositions")))
+    out.append(("regression: %d pack sizes of one byte" % n, seal(b"\x01\x04\x06\x00" + num(n) + b"\x09" + b"\x01" * n + b"\x00\x00\x00"), None,
+                ["getnames"], None))
     n = 12000
     fol = num(1) + bytes([0x11]) + b"\x00" + num(n + 1) + num(n + 1) + b"".join(num(1) + num(0) for _ in range(n))
-    out.append(("one folder with %d bind pairs" % n, seal(b"\x01\x04\x07\x0b\x01\x00" + fol + b"\x0c\x00"), None, ["getnames"],
-                ("quadratic", "bindpairs")))
-    out.append(("41-byte archive: 2000 files, NAME record of one byte", seal(b"\x01\x05" + num(2000) + b"\x11\x01\x00\x00\x00"), None,
-                ["getnames"], ("amplify", "names-at-eof")))
+    out.append(("regression: one folder with %d bind pairs" % n, seal(b"\x01\x04\x07\x0b\x01\x00" + fol + b"\x0c\x00"), None, ["getnames"],
+                None))
+    out.append(("regression: 41-byte archive: 2000 files, NAME record of one byte", seal(b"\x01\x05" + num(2000) + b"\x11\x01\x00\x00\x00"), None,
+                ["getnames"], None))
     try:
         pa = arch.make_archive([("a.txt", b"hello world" * 10)], chain="ppmd", encoded=False)
         pp, ph = split(pa)
@@ -1004,6 +1007,8 @@ def impl_toy_worker(fuel, states, us, isz, bsz, packed, size, mb):
         return ("err", "Fuel")
     except EOFError:
         return ("err", "Eof")
+    except py7zr.exceptions.Bad7zFile:
+        return ("err", "Bad7z")
     except Exception as e:  # noqa
         return ("err", "Other:" + type(e).__name__)
     finally:
@@ -1026,6 +1031,8 @@ def impl_toy_header_loop(fuel, states, us, isz, bsz, packed, usize):
     except EOFError:
         return ("err", "Eof")
     except Exception as e:  # noqa  (what is read back is not a header: the loop has ended)
+        if isinstance(e, py7zr.exceptions.Bad7zFile) and "unexpected end" in str(e):
+            return ("err", "Bad7z")
         got = b"".join(dec.outs)
         if len(got) >= usize:
             return ("ok", got)
@@ -1037,7 +1044,7 @@ def impl_toy_header_loop(fuel, states, us, isz, bsz, packed, usize):
 def model_res_bytes(r):
     if r[0] == 0:
         return ("ok", bytes(r[1]))
-    return ("err", {5: "Eof", 6: "Other", 7: "Fuel"}.get(r[1], str(r[1])))
+    return ("err", {1: "Bad7z", 5: "Eof", 6: "Other", 7: "Fuel"}.get(r[1], str(r[1])))
 
 
 def same_loop_result(m, i):
@@ -1055,7 +1062,7 @@ def cost_model_available(model):
         import vlib
         if "packpositions" not in vlib.fn_table():
             return False
-        return model.call("packpositions_steps", [0, 0]) == 1
+        return model.call("packpositions_steps", 0) == 1 and model.call("read_digest_iters", [5, 2, 0]) == 1
     except Exception:  # noqa
         return False
 
@@ -1115,7 +1122,7 @@ def child_cost_impl(arg):
         for c in cases:
             raw = num(c["pos"]) + num(c["n"]) + (b"" if c["nosz"] else b"\x09" + b"".join(num(x) for x in c["sizes"])) + b"\x00"
             p = ai.PackInfo.retrieve(io.BytesIO(raw))
-            out.append([list(p.packpositions), sum(len(p.packsizes[:i]) + 1 for i in range(p.numstreams + 1))])
+            out.append([list(p.packpositions), len(p.packpositions)])
     elif part == "utf16":
         for c in cases:
             f = CountIO(bytes.fromhex(c["buf"]))
@@ -1148,8 +1155,8 @@ def child_cost_impl(arg):
             nb = len(c["bonds"])
             raw = num(1) + bytes([0x11]) + b"\x00" + num(nb + 1) + num(nb + 1) + b"".join(num(a) + num(b) for a, b in c["bonds"])
             counter[0] = 0
-            ai.Folder.retrieve(io.BytesIO(raw))
-            out.append(counter[0])
+            fo = ai.Folder.retrieve(io.BytesIO(raw))
+            out.append([counter[0], list(fo.packed_indices)])
     elif part == "digest":
         for c in cases:
             z = object.__new__(py7zr.SevenZipFile)
@@ -1194,7 +1201,7 @@ def check_cost_model(ctx, rep, rng, tier):
         for c, got in zip(parts[p], o["value"]):
             n_cases += 1
             if p == "packpositions":
-                want = [model.call("packpositions", [c["sizes"], c["n"]]), model.call("packpositions_steps", [len(c["sizes"]), c["n"]])]
+                want = [model.call("packpositions", c["sizes"]), model.call("packpositions_steps", len(c["sizes"]))]
                 rep.count(("packpos", c["n"], tuple(c["sizes"])), nontrivial=c["n"] > 0)
             elif p == "utf16":
                 want = model.call("utf16_iters", list(bytes.fromhex(c["buf"])))
@@ -1203,15 +1210,16 @@ def check_cost_model(ctx, rep, rng, tier):
                 want = model.call("names_steps", [c["n"], list(bytes.fromhex(c["buf"]))])
                 rep.count(("names", c["n"], c["buf"]), nontrivial=True)
             elif p == "bonds":
-                want = model.call("packed_indices_steps", [c["bonds"], len(c["bonds"]) + 1])
+                steps, idx = model.call("packed_indices", [c["bonds"], len(c["bonds"]) + 1])
+                want = [steps - (len(c["bonds"]) + 1), idx]      # reads of bond.incoder; the set lookups are not observable
                 rep.count(("bonds", repr(c["bonds"])), nontrivial=len(c["bonds"]) > 0)
             elif p == "digest":
-                want = model.call("read_digest_iters", [c["size"], c["bs"]])
+                want = model.call("read_digest_iters", [c["size"], c["bs"], c["have"]])
                 rep.count(("digest", c["size"], c["bs"]), nontrivial=c["size"] > 0)
             else:
                 args = [c["fuel"], c["states"], c["us"], c["isz"], c["bsz"], c["packed"], c["size"], c["mb"]]
-                mw = model_res_bytes(model.call("toy_worker", args + [[]]))
-                mh = model_res_bytes(model.call("toy_header_loop", args[:7] + [[]]))
+                mw = model_res_bytes(model.call("toy_worker_guarded", args + [[]]))
+                mh = model_res_bytes(model.call("toy_header_guarded", args[:7] + [[]]))
                 iw = (got[0][0], bytes.fromhex(got[0][1]) if got[0][0] == "ok" else got[0][1])
                 ih = (got[1][0], bytes.fromhex(got[1][1]) if got[1][0] == "ok" else got[1][1])
                 rep.count(("toyloops", repr(args)), nontrivial=len(c["packed"]) > 0)
@@ -1328,12 +1336,12 @@ def measure_blowups(rep, tier):
         "substreams-count": ([10 ** 7, 2 * 10 ** 7, 4 * 10 ** 7],
                              lambda n: seal(b"\x01\x04\x06\x00\x01\x09\x00\x00\x07\x0b\x01\x00\x01\x01\x00\x0c\x00\x00\x08\x0d"
                                             + num(n) + b"\x00\x00\x00")),
-        "packpositions": ([10000, 20000, 40000] if not big else [20000, 40000, 80000],
+        "packpositions": ([50000, 100000, 200000] if not big else [100000, 200000, 400000],
                           lambda n: seal(b"\x01\x04\x06\x00" + num(n) + b"\x09" + b"\x01" * n + b"\x00\x00\x00")),
-        "bindpairs": ([3000, 6000, 12000] if not big else [6000, 12000, 24000],
+        "bindpairs": ([20000, 40000, 80000] if not big else [40000, 80000, 160000],
                       lambda n: seal(b"\x01\x04\x07\x0b\x01\x00" + num(1) + bytes([0x11]) + b"\x00" + num(n + 1) + num(n + 1)
                                      + b"".join(num(1) + num(0) for _ in range(n)) + b"\x0c\x00")),
-        "names-at-eof": ([250, 500, 1000] if not big else [1000, 2000, 4000],
+        "names-at-eof": ([5000, 10000, 20000] if not big else [20000, 40000, 80000],
                          lambda n: seal(b"\x01\x05" + num(n) + b"\x11\x01\x00\x00\x00")),
     }
     jobs = [(k, n, mk(n)) for k, (ns, mk) in plans.items() for n in ns]
@@ -1419,8 +1427,11 @@ def measure(ctx, rep, tier):
         "numfiles": ("alloc", lambda v: v["rss_bytes_per_declared_item"] > 50),
         "numstreams-without-sizes": ("alloc", lambda v: v["rss_bytes_per_declared_item"] > 4),
         "substreams-count": ("alloc", lambda v: v["rss_bytes_per_declared_item"] > 4),
-        "packpositions": ("quadratic", lambda v: v["exponent_of_time_in_count"] is not None and v["exponent_of_time_in_count"] > 1.5),
-        "bindpairs": ("quadratic", lambda v: v["exponent_of_time_in_count"] is not None and v["exponent_of_time_in_count"] > 1.5),
+        # (a quadratic pass at these sizes takes minutes; the exponent of a few hundredths of a second is noise)
+        "packpositions": ("quadratic", lambda v: v["exponent_of_time_in_count"] is not None and v["exponent_of_time_in_count"] > 1.5
+                          and v["cpu_last_s"] > 1.0),
+        "bindpairs": ("quadratic", lambda v: v["exponent_of_time_in_count"] is not None and v["exponent_of_time_in_count"] > 1.5
+                      and v["cpu_last_s"] > 1.0),
         "names-at-eof": ("amplify", lambda v: v["cpu_last_s"] > 1e-4 * v["input_bytes_last"] + 1.0),
     }
     for k, v in verdicts.items():
@@ -1464,13 +1475,13 @@ def explore(ctx, rep, rng, tier, tmpdir, events):
             for pw in (None, "wrong", "", "secret\0"):
                 add(b["name"] + " pw=%r" % pw, b["a"], pw, random_seq(rng), origin="password")
     # B. byte-level mutants
-    nb = 260 if quick else 6000
+    nb = 400 if quick else 6000
     for _ in range(nb):
         b = rng.choice(corpus)
         a, how = byte_mutant(b, corpus, rng)
         add(b["name"] + ": " + how, a, b["pw"], random_seq(rng), mode=rng.choice(["bio", "bio", "bio", "file"]), origin="bytes")
     # C. structure-aware mutants, re-sealed; the parser model predicts
-    nc = 700 if quick else 20000
+    nc = 1200 if quick else 20000
     pred_tab = {}
     withtok = [b for b in corpus if b["tokens"]]
     for _ in range(nc):
@@ -1584,8 +1595,8 @@ def explore(ctx, rep, rng, tier, tmpdir, events):
                     done.append(op)
                     continue
             kind, via = classify(op, status, detail, done)
-            if m["origin"] == "valid" and (kind, via) != ("hang", "stale-decoder"):
-                via = "valid-archive:" + via      # an unmodified archive under a benign call: never a known shape
+            if m["origin"] == "valid":
+                via = "valid-archive:" + via      # an unmodified archive under read-mode calls: never a known shape
             stats["events"] += 1
             events[(kind, via)] = events.get((kind, via), 0) + 1
             if m["origin"] == "structure":
@@ -1615,7 +1626,7 @@ def explore(ctx, rep, rng, tier, tmpdir, events):
                        limit=16)
             if exp is None and got is not None:
                 unknown_retry.append((c, m, (got[0], "control:" + m["name"][10:60]),
-                                      "control case (benign neighbour of a known trigger) %s shows %s/%s: %s" % (
+                                      "control / regression case (no resource event expected) %s shows %s/%s: %s" % (
                                           m["name"], got[0], got[1], json.dumps(r["ops"])[:600])))
     rep.extra["calls"] = stats
     rep.extra["parser_model_prediction_vs_observation"] = pred_tab
@@ -1697,10 +1708,10 @@ def replay(d):
         try:
             a = r["args"]
             if r["part"] == "toy_worker":
-                mm = model_res_bytes(m.call("toy_worker", a + [[]]))
+                mm = model_res_bytes(m.call("toy_worker_guarded", a + [[]]))
                 ii = impl_toy_worker(*a)
             else:
-                mm = model_res_bytes(m.call("toy_header_loop", a + [[]]))
+                mm = model_res_bytes(m.call("toy_header_guarded", a + [[]]))
                 ii = impl_toy_header_loop(*a)
         finally:
             m.close()
